@@ -40,14 +40,13 @@ Section RESP.
     mkSt false (v_multi o) false asrep false (v_excl_wo o).
 
   Definition header_check (o : vopts) (h : hdr) : rres :=
-    match h_decoded h with
-    | None => if h_found h then RErr (RHeaderDecode (h_name h))
-              else if h_required h then RErr (RHeaderMissing (h_name h)) else ROk
-    | Some v =>
+    match h_schema h with
+    | None => RPanic "response header defined by content: decodeValue dereferences a nil schema"
+    | Some s =>
         if h_found h then
-          match h_schema h with
-          | None => RPanic "response header defined by content: nil Schema"
-          | Some s =>
+          match h_decoded h with
+          | None => RErr (RHeaderDecode (h_name h))
+          | Some v =>
               match visit rc rm fo (resp_settings o false) s v with
               | Ok => ROk
               | Err _ => RErr (RHeaderSchema (h_name h))
